@@ -218,6 +218,16 @@ Example C07_history_nonvacuous :
                 In (mk (SBasic 1) (Some 3) (Some 1%N)) l1 /\ ~ In (mk (SBasic 1) (Some 3) (Some 1%N)) l2.
 Proof. exact history_nonvacuous. Qed.
 
+(* a file without a header line: rows are labelled from 1 (row_adj = 1); the row-level issue (no column) and the cell
+   issue (column 1 of the model = the first column) of the same row are both reported.  All theorems above hold for
+   cf_header = false as well.  NOT modelled: the kind of the column labels (numbers 0,1,.. for a headerless file) --
+   the model only has their rank -- so the defect repaired by 2e53521 (TypeError in sort_issues when '' is compared with
+   a number) is covered by the implementation-side oracle on headerless inputs only (testing). *)
+Example C07_headerless_example :
+  w_validate cfg_headerless t_headerless
+  = Ok [mk (SFull 2) (Some 1) None; mk (SBasic 3) (Some 1) (Some 1%N)].
+Proof. exact headerless_example. Qed.
+
 (* ================== part 2: records of the repaired defects (unrepaired behaviour) ================== *)
 
 (* Finding 6 (was C07-F1; repaired by f83491d): "(Delay/2 Seconds,(Red))" raised TypeError under the verbatim
